@@ -214,10 +214,11 @@ func (s *state) run(cmdName string, args []string, stdin io.Reader) module.Check
 	if err != nil {
 		return module.CheckResult{
 			Reason: &exterrors.SMTPError{
-				Code:      450,
-				Message:   "Internal server error",
-				CheckName: "command",
-				Err:       err,
+				Code:         450,
+				EnhancedCode: exterrors.EnhancedCode{4, 0, 0},
+				Message:      "Internal server error",
+				CheckName:    "command",
+				Err:          err,
 				Misc: map[string]interface{}{
 					"cmd": cmd.String(),
 				},
@@ -229,10 +230,11 @@ func (s *state) run(cmdName string, args []string, stdin io.Reader) module.Check
 	if err := cmd.Start(); err != nil {
 		return module.CheckResult{
 			Reason: &exterrors.SMTPError{
-				Code:      450,
-				Message:   "Internal server error",
-				CheckName: "command",
-				Err:       err,
+				Code:         450,
+				EnhancedCode: exterrors.EnhancedCode{4, 0, 0},
+				Message:      "Internal server error",
+				CheckName:    "command",
+				Err:          err,
 				Misc: map[string]interface{}{
 					"cmd": cmd.String(),
 				},
@@ -250,10 +252,11 @@ func (s *state) run(cmdName string, args []string, stdin io.Reader) module.Check
 
 		return module.CheckResult{
 			Reason: &exterrors.SMTPError{
-				Code:      450,
-				Message:   "Internal server error",
-				CheckName: "command",
-				Err:       err,
+				Code:         450,
+				EnhancedCode: exterrors.EnhancedCode{4, 0, 0},
+				Message:      "Internal server error",
+				CheckName:    "command",
+				Err:          err,
 				Misc: map[string]interface{}{
 					"cmd": cmd.String(),
 				},
@@ -283,10 +286,11 @@ func (s *state) errorRes(err error, res module.CheckResult, cmdLine string) modu
 	exitErr, ok := err.(*exec.ExitError)
 	if !ok {
 		res.Reason = &exterrors.SMTPError{
-			Code:      450,
-			Message:   "Internal server error",
-			CheckName: "command",
-			Err:       err,
+			Code:         450,
+			EnhancedCode: exterrors.EnhancedCode{4, 0, 0},
+			Message:      "Internal server error",
+			CheckName:    "command",
+			Err:          err,
 			Misc: map[string]interface{}{
 				"cmd": cmdLine,
 			},
@@ -298,11 +302,12 @@ func (s *state) errorRes(err error, res module.CheckResult, cmdLine string) modu
 	action, ok := s.c.actions[exitErr.ExitCode()]
 	if !ok {
 		res.Reason = &exterrors.SMTPError{
-			Code:      450,
-			Message:   "Internal server error",
-			CheckName: "command",
-			Err:       err,
-			Reason:    "unexpected exit code",
+			Code:         450,
+			EnhancedCode: exterrors.EnhancedCode{4, 0, 0},
+			Message:      "Internal server error",
+			CheckName:    "command",
+			Err:          err,
+			Reason:       "unexpected exit code",
 			Misc: map[string]interface{}{
 				"cmd":       cmdLine,
 				"exit_code": exitErr.ExitCode(),
@@ -377,10 +382,11 @@ func (s *state) CheckBody(ctx context.Context, hdr textproto.Header, body buffer
 	if err != nil {
 		return module.CheckResult{
 			Reason: &exterrors.SMTPError{
-				Code:      450,
-				Message:   "Internal server error",
-				CheckName: "command",
-				Err:       err,
+				Code:         450,
+				EnhancedCode: exterrors.EnhancedCode{4, 0, 0},
+				Message:      "Internal server error",
+				CheckName:    "command",
+				Err:          err,
 				Misc: map[string]interface{}{
 					"cmd": cmdName + " " + strings.Join(cmdArgs, " "),
 				},
